@@ -117,7 +117,7 @@ fn weights(mode: &str) -> [usize; 30] {
     }
 }
 
-fn lits_json(c: &[Vec<(usize, bool)>]) -> Value {
+pub fn lits_json(c: &[Vec<(usize, bool)>]) -> Value {
     json!(c
         .iter()
         .map(|cl| cl
@@ -127,7 +127,7 @@ fn lits_json(c: &[Vec<(usize, bool)>]) -> Value {
         .collect::<Vec<_>>())
 }
 
-fn mk_cnf(c: &[Vec<(usize, bool)>]) -> Cnf {
+pub fn mk_cnf(c: &[Vec<(usize, bool)>]) -> Cnf {
     let cl: Vec<Vec<Literal>> = c
         .iter()
         .map(|cl| {
@@ -152,7 +152,7 @@ pub fn rand_clauses(rng: &mut Rng, nv: usize, max_clauses: usize, max_width: usi
 }
 
 /// random expression tree; returns (json, LogicalExpr)
-fn rand_expr(rng: &mut Rng, nv: usize, depth: usize) -> (Value, LogicalExpr) {
+pub fn rand_expr(rng: &mut Rng, nv: usize, depth: usize) -> (Value, LogicalExpr) {
     if depth == 0 || rng.chance(1, 4) {
         let v = rng.below(nv);
         let p = rng.coin();
@@ -200,7 +200,7 @@ fn rand_expr(rng: &mut Rng, nv: usize, depth: usize) -> (Value, LogicalExpr) {
     }
 }
 
-fn plan_json(p: &BottomUpPlan) -> Value {
+pub fn plan_json(p: &BottomUpPlan) -> Value {
     match p {
         BottomUpPlan::And(a, b) => json!(["and", plan_json(a), plan_json(b)]),
         BottomUpPlan::Or(a, b) => json!(["or", plan_json(a), plan_json(b)]),
@@ -214,7 +214,7 @@ fn plan_json(p: &BottomUpPlan) -> Value {
 }
 
 /// random hand-made plan (uses every constructor, including the constants)
-fn rand_plan(rng: &mut Rng, nv: usize, depth: usize) -> BottomUpPlan {
+pub fn rand_plan(rng: &mut Rng, nv: usize, depth: usize) -> BottomUpPlan {
     if depth == 0 || rng.chance(1, 4) {
         return match rng.below(8) {
             0 => BottomUpPlan::ConstTrue,
